@@ -1,5 +1,6 @@
 import ShootVerif.Proofs.Fs
 import ShootVerif.Proofs.Recog
+import ShootVerif.Proofs.Cli
 import ShootVerif.Gen.Facts
 /-!
 C17 — writes are confined, atomic and never delete hand-written files.
@@ -245,6 +246,20 @@ theorem C17_clean_only_generated (c : Config) :
 /-- per-type runs (`-type=A`, `-sep`) and runs without a matching go:generate line never remove anything -/
 theorem C17_clean_inactive (c : Config) (h : (c.cleanActive && !c.outs.isEmpty) = false) : c.clean = [] := by
   simp [Config.clean, Config.cleanNames, h]
+
+/-- the clean-up removes something only when THIS run regenerates the whole package into the all-in-one file: the command line
+    is `-type=*` without `-file` and without `-sep` (`cleanActiveWith` is the driver model's `!Separate && allInOneFile != ""`).
+    With `C17_clean_only_generated`: a removed file carries this sub-command's per-type header, so each of its declarations belongs
+    to a type this run has just regenerated (or to one that no longer exists). `-file=f.go -type=*`, `-type=* -sep`, `-type=A,B`
+    and every `-file` run remove nothing. -/
+theorem C17_clean_only_superseded (fl : ShootVerif.Cli.Flags) (aiofile : String) (c : Config)
+    (hc : c.cleanActive = ShootVerif.Cli.cleanActiveWith fl aiofile) (hrm : c.clean ≠ []) :
+    ShootVerif.Cli.mode fl = some (.star false) := by
+  apply ShootVerif.Cli.cleanActive_star fl aiofile
+  rw [← hc]
+  cases hca : c.cleanActive with
+  | true => rfl
+  | false => exact absurd (C17_clean_inactive c (by simp [hca])) hrm
 
 /-! ### the recognisers Clean relies on, against declarative specifications (tied to filepath.Match / regexp by the
 in-process differential of tools/props/c17.py through the verif hook `shoot.VerifClean`) -/
